@@ -311,7 +311,7 @@ def install(lib, np_):
     if st.shape.rank >= 2:
       return a
     if st.shape.rank == 0:
-      return cx.new(None, [1, 1], st.kind, st.owner)
+      return cx.new(TH.atleast2d(st.term) if st.term is not None else None, [1, 1], st.kind, st.owner)
     return cx.new(None, [1, st.shape.dims[0]], st.kind, st.owner, base=(a.loc, st.version))
 
   @ext('numpy.eye')
